@@ -19,7 +19,13 @@ RULE = ('histories over the name lattice /a, /a/b, /a/b/c, /x (with/without impl
         'boundaries 255/256/65535/65536/2^32-1/2^32/2^64-1 and non-shortest 2/4/8-byte encodings - as a targeted table '
         '(18 forms x 6 patterns: alone, at the deadline in all tie modes, with implicit digest, while the application serves '
         'the prefix itself, repeated, next to a validating Interest) and in the random histories (about half falsy / boundary); '
-        'an Interest handler called without an incoming Interest is an oracle failure; thorough: all histories up to 5 events over '
+        'an Interest handler called without an incoming Interest is an oracle failure; shutdown family: the face shuts down '
+        'while Interests are pending on each of the 15 non-empty subsets of the lattice /a, /a/b, /a/b/c, /x (same, nested and '
+        'unrelated names) x {one Interest per name with mixed CanBePrefix; shutdown on the deadline of the first / last name in '
+        'all three tie modes; three Interests per name (plain, CanBePrefix, implicit digest); the other names already completed '
+        'by Data / Nack / cancel / timeout (holes above, between and below); the other names validating, verdicts and late '
+        'packets after the shutdown} - every pending Interest must end Cancelled at the shutdown; a fifth of the random '
+        'histories end with a shutdown (some on a pending deadline); thorough: all histories up to 5 events over '
         '2 names x 3 Interests + a 1/40 sample of the 6-event ones; both front-ends. non-trivial = at least one Interest and more than two events')
 ASSUMPTIONS = ['asyncio (CPython 3.12: Future, Task.cancel, wait_for/timeouts.Timeout, FIFO ready queue) is the event '
                'alphabet of the model; the three tie modes are the linearisations a loop turn permits',
